@@ -1,1 +1,19 @@
-From Wz Require Import lib.Bytes C01.Gen C01.Model C01.Proofs.
+(* C01 property theorems (theorems only; proofs in the other C01 files). *)
+From Wz Require Import lib.Bytes C01.Gen C01.Model C01.Pins C01.Proofs.
+Open Scope N_scope.
+
+(* the pattern texts, templates, state names and SEARCH_EXTRA_LENGTH the hand-written matchers
+   stand for are those of the current source *)
+Theorem C01_patterns_pinned :
+  list_eqb line_break_text pin_line_break_text && list_eqb blank_line_text pin_blank_line_text
+  && list_eqb preamble_template pin_preamble_template && list_eqb boundary_template pin_boundary_template
+  && list_eqb template_args pin_template_args && lle state_names pin_state_names
+  && Nat.eqb search_extra_length 8 = true.
+Proof. exact patterns_pinned. Qed.
+Print Assumptions C01_patterns_pinned.
+
+(* next_event never grows the buffer *)
+Theorem C01_next_event_consumes : forall lim B c ev c',
+  next_event lim B c = Ok (ev, c') -> (length (buf c') <= length (buf c))%nat.
+Proof. exact next_event_buf_le. Qed.
+Print Assumptions C01_next_event_consumes.
